@@ -277,7 +277,7 @@ def g_job_any(rng, st):
         {'time_run': 'T0'},
         {'submit_status': rng.choice([0, 1]), 'time_submit_exit': 'T2'},
         {'run_signal': 'SIGTERM', 'run_status': 1},
-        {'submit_num': t['submit_num'], 'job_id': None},
+        {'job_id': None, 'job_runner_name': 'slurm'},
     ])
     return {'op': 'update_task_jobs', 'task': t, 'args': dict(args)}
 
